@@ -129,6 +129,16 @@ func runC04(c *Check) {
 							usesAbs = true // if v < 0 { v = -v }
 						}
 					}
+					// v = max(v, -v)
+					if call, ok := ins.(*ssa.Call); ok {
+						if bi, isB := call.Call.Value.(*ssa.Builtin); isB && bi.Name() == "max" && len(call.Call.Args) == 2 {
+							for _, pr := range [][2]ssa.Value{{call.Call.Args[0], call.Call.Args[1]}, {call.Call.Args[1], call.Call.Args[0]}} {
+								if neg, isNeg := pr[1].(*ssa.UnOp); isNeg && neg.Op == token.SUB && neg.X == pr[0] {
+									usesAbs = true
+								}
+							}
+						}
+					}
 				}
 			}
 		}
